@@ -354,6 +354,14 @@ func (c *Conn) handleControl(ctx context.Context, h header) (err error) {
 	return err
 }
 
+// readFailed ends the read side of the connection after a read has failed. What
+// follows the failure on the wire is not a frame boundary (after a protocol
+// violation it is the payload of the rejected frame), so a caller that reads
+// again must not have it parsed and delivered as if nothing had happened.
+func (c *Conn) readFailed() {
+	atomic.StoreInt32(&c.readClose, 1)
+}
+
 func (c *Conn) reader(ctx context.Context) (_ MessageType, _ io.Reader, err error) {
 	defer errd.Wrap(&err, "failed to get reader")
 
@@ -373,12 +381,14 @@ func (c *Conn) reader(ctx context.Context) (_ MessageType, _ io.Reader, err erro
 
 	h, err := c.readLoop(ctx)
 	if err != nil {
+		c.readFailed()
 		return 0, nil, err
 	}
 
 	if h.opcode == opContinuation {
 		err := errors.New("received continuation frame without text or binary frame")
 		c.writeError(StatusProtocolError, err)
+		c.readFailed()
 		return 0, nil, err
 	}
 
@@ -454,6 +464,7 @@ func (mr *msgReader) Read(p []byte) (n int, err error) {
 		if mr.flate {
 			err = mr.discardRest()
 			if err != nil {
+				mr.c.readFailed()
 				return n, fmt.Errorf("failed to read: %w", err)
 			}
 		}
@@ -461,6 +472,7 @@ func (mr *msgReader) Read(p []byte) (n int, err error) {
 		return n, io.EOF
 	}
 	if err != nil {
+		mr.c.readFailed()
 		return n, fmt.Errorf("failed to read: %w", err)
 	}
 	return n, nil
